@@ -177,7 +177,12 @@ def step (s : St) (line : String) : St × String :=
     match sink.toNat? with
     | some i =>
       match getS s i with
-      | some sk => if sk.buf.isSome && !sk.held then (setS s i { sk with held := true }, "ok") else (s, "bad-op")
+      | some sk =>
+        match sk.buf, sk.held with
+        | some b, false =>
+          -- the harness occupies the delivery goroutine with a primer (modelled as the empty item)
+          (setS s i { sk with held := true, buf := some (b.send []).1.take }, "ok")
+        | _, _ => (s, "bad-op")
       | none => (s, "bad-op")
     | none => (s, "bad-op")
   | ["release", sink] =>
@@ -189,7 +194,7 @@ def step (s : St) (line : String) : St × String :=
         | some b, true =>
           let (b', ws) := b.drain
           (setS s i { sk with buf := some b', held := false },
-            " ".intercalate (showWrites (ws.map fun w => (i, w)) ++ ["released"]))
+            " ".intercalate (showWrites ((ws.filter (· != [])).map fun w => (i, w)) ++ ["released"]))
         | _, _ => (s, "bad-op")
       | none => (s, "bad-op")
     | none => (s, "bad-op")
@@ -201,9 +206,13 @@ def step (s : St) (line : String) : St × String :=
     match getH s h, lvl.toInt?, hexBytes? msg, parseAttrs ws [] with
     | some h, some lvl, some msg, some as =>
       if isEnabled s h lvl then
-        doLog s h { level := lvl, ts := nowTok, msg := msg,
-                    attrs := .stack TL.stackKey stackTok (.leaf TL.stackKey fbTok) :: as }
-      else (s, "ret=skip")
+        let (s', out) := doLog s h { level := lvl, ts := nowTok, msg := msg,
+                                     attrs := .stack TL.stackKey stackTok (.leaf TL.stackKey fbTok) :: as }
+        -- errs.Log* discards Handle's result; a panic of a tracelog sink still reaches the caller
+        let ws := words out
+        let ws := ws.map fun w => if w.startsWith "ret=" && !w.startsWith "ret=panic:" then "ret=void" else w
+        (s', " ".intercalate ws)
+      else (s, "ret=void")
     | _, _, _, _ => (s, "bad-op")
   | _ => (s, "bad-op")
 
